@@ -31,7 +31,7 @@ META = {
 
 CALLS = ['prox-inf', 'prox-maxd', 'prox-maxd2', 'prox-targets', 'prox-manhattan', 'alloc-targets', 'direction-maxd', 'mean-1', 'mean-excl', 'apply-3x3', 'apply-1x3', 'circle-2', 'circle-3',
          'annulus-2-1', 'annulus-3-1', 'conv-annulus', 'stats-default', 'stats-subset', 'crosstab', 'nb-sample-k2', 'nb-sample-k3', 'nb-full', 'quantile', 'perlin-5', 'perlin-9',
-         'astar-barrier', 'astar-free', 'regions-8', 'polygonize-int', 'polygonize-float']
+         'astar-barrier', 'astar-free', 'regions-8', 'polygonize-int', 'polygonize-float', 'crosstab3d-same-objects', 'nb-full-same-objects', 'mean0-same-objects']
 
 
 def jobs(tier, seed):
@@ -138,6 +138,23 @@ def _run(ses, name, env):
         return ses.call('zonal:regions', R(env['zones']), 8)
     if name == 'polygonize-int':
         return ses.call('experimental.polygonize:polygonize', R(env['zones'].astype('int32')))
+    if name.endswith('-same-objects'):
+        # the user repeats the call with the very same raster objects (no fresh copy per call): a call that scribbles on its arguments
+        # changes what its own repetition returns.  The fresh session gets pristine objects of its own (env is per session for these).
+        key = ('shared', id(ses))
+        if key not in env:
+            cube = symnp.asarray([[[1.0, 7.0, 3.0], [9.0, 4.0, 12.0]], [[2.0, 5.0, 8.0], [6.0, 1.0, 3.0]]], 'float64').copy()
+            cube[0, 1, 0] = env['nbdata'][1, 0]
+            env[key] = {'zones': R(env['zones']), 'nb': R(env['nbdata']), 'd2': R(env['d2']),
+                        'cube': symxr.DataArray(cube, dims=('layer', 'y', 'x'), coords={'layer': symnp.asarray([10, 20]), 'y': ys, 'x': xs}, name='cube')}
+        sh = env[key]
+        if name == 'crosstab3d-same-objects':
+            return ses.call('zonal:crosstab', sh['zones'], sh['cube'], None, None, 0, 'sum')
+        if name == 'nb-full-same-objects':
+            return ses.call('classify:natural_breaks', sh['nb'], 20000, 'nb', 2)
+        if name == 'mean0-same-objects':
+            out = ses.call('focal:mean', sh['d2'], 0)
+            return out
     if name == 'polygonize-float':
         return ses.call('experimental.polygonize:polygonize', R(env['zones']))
     raise KeyError(name)
